@@ -32,7 +32,7 @@ def contLine (acc : Str) : List Tok → Except Err (Str × List Tok)
   | (k, t) :: ts =>
     if k = .VALUE then contLine (acc ++ t) ts
     else if k = .COMMENT then contLine acc ts
-    else if k = .NEWLINE then .ok (acc ++ t, ts)
+    else if k = .NEWLINE then .ok (acc ++ ['\n'], ts)
     else if k = .KEY then .ok (acc, (k, t) :: ts)
     else .error .UnexpectedToken
 
